@@ -110,6 +110,7 @@ impl Gen {
         let nf = 1 + self.rng.below(4);
         let fields = (0..nf).map(|_| self.sized_field(depth, portable, default)).collect();
         Ty::Struct(Box::new(StructDef {
+            generic_of: None,
             name: self.name("S"),
             tuple: self.rng.chance(1, 3),
             fields,
@@ -165,6 +166,7 @@ impl Gen {
             def = Some(i);
         }
         Ty::Enum(Box::new(EnumDef {
+            generic_of: None,
             name: self.name("E"),
             tag: self.tag(portable),
             variants,
@@ -225,6 +227,7 @@ impl Gen {
         // (it expands to `Self::DefaultEmplacer(..)`), so those are always named.
         let tuple = self.rng.chance(1, 3) && !default;
         Ty::Struct(Box::new(StructDef {
+            generic_of: None,
             name: self.name("U"),
             tuple,
             fields,
@@ -280,6 +283,7 @@ impl Gen {
             def = Some(i);
         }
         Ty::Enum(Box::new(EnumDef {
+            generic_of: None,
             name: self.name("V"),
             tag: self.tag(portable),
             variants,
@@ -295,6 +299,7 @@ fn prim(p: Prim) -> Ty {
 }
 fn sstruct(name: &str, fields: Vec<Ty>, sized: bool, portable: bool, default: bool) -> Ty {
     Ty::Struct(Box::new(StructDef {
+            generic_of: None,
         name: name.into(),
         tuple: false,
         fields,
@@ -308,6 +313,7 @@ fn var(kind: VarKind, fields: Vec<Ty>) -> Variant {
 }
 fn senum(name: &str, tag: TagTy, variants: Vec<Variant>, sized: bool, portable: bool, default: Option<usize>) -> Ty {
     Ty::Enum(Box::new(EnumDef {
+            generic_of: None,
         name: name.into(),
         tag,
         variants,
@@ -553,6 +559,11 @@ pub fn anchors() -> Vec<Ty> {
         true,
     ));
 
+    // --- 16-bit offset types with items that can exceed 64 KiB (sealing offset not representable)
+    v.push(flex(Ty::FlatString(L::LeU32), L::LeU16));
+    v.push(flex(Ty::FlatString(L::U32), L::U16));
+    v.push(flex(fvec(prim(U8), L::BeU32), L::BeU16));
+
     // --- FlexVec item matrix (C12)
     let flex_items: Vec<Ty> = vec![
         prim(U32),
@@ -599,6 +610,38 @@ pub fn anchors() -> Vec<Ty> {
     }
     for l in LenTy::ALL {
         v.push(Ty::FlatString(l));
+    }
+
+    // --- instantiations of hand-written generic definitions (see GENERIC_SRC)
+    for (t, l, n, tn, ln) in [(prim(U16), L::U8, 3usize, "u16", "u8"), (prim(U64), L::U16, 0, "u64", "u16"), (Ty::Bool, L::LeU32, 2, "::flatty::portable::Bool", "::flatty::portable::le::U32")] {
+        let mut s = match sstruct("x", vec![Ty::Array(b(t.clone()), n), l.as_ty(), fvec(t.clone(), l)], false, false, true) {
+            Ty::Struct(s) => s,
+            _ => unreachable!(),
+        };
+        s.generic_of = Some("AGenU".into());
+        s.name = format!("AGenU<{}, {}, {}>", tn, ln, n);
+        v.push(Ty::Struct(s.clone()));
+        let mut e = match senum(
+            "x",
+            TagTy::U16,
+            vec![var(Tuple, vec![t.clone(), l.as_ty()]), var(Unit, vec![]), var(Named, vec![Ty::Array(b(t.clone()), n), Ty::Struct(s.clone())])],
+            false,
+            false,
+            Some(1),
+        ) {
+            Ty::Enum(e) => e,
+            _ => unreachable!(),
+        };
+        e.generic_of = Some("AGenV".into());
+        e.name = format!("AGenV<{}, {}, {}>", tn, ln, n);
+        v.push(Ty::Enum(e));
+        let mut g = match sstruct("x", vec![prim(U8), Ty::Array(b(t.clone()), n), t.clone()], true, false, true) {
+            Ty::Struct(s) => s,
+            _ => unreachable!(),
+        };
+        g.generic_of = Some("AGenS".into());
+        g.name = format!("AGenS<{}, {}>", tn, n);
+        v.push(Ty::Struct(g));
     }
 
     // --- scalars and arrays as top-level types
@@ -724,16 +767,20 @@ fn flat_attr(sized: bool, portable: bool, default: bool, tag: Option<TagTy>) -> 
 
 fn emit_struct(out: &mut String, s: &StructDef) {
     let name = &s.name;
-    writeln!(out, "{}", flat_attr(s.sized, s.portable, s.default, None)).unwrap();
-    if s.sized {
-        writeln!(out, "#[derive(Clone, Debug, PartialEq)]").unwrap();
-    }
-    if s.tuple {
-        let fs: Vec<String> = s.fields.iter().map(|f| format!("pub {}", f.rust())).collect();
-        writeln!(out, "pub struct {}({});", name, fs.join(", ")).unwrap();
-    } else {
-        let fs: Vec<String> = s.fields.iter().enumerate().map(|(i, f)| format!("pub f{}: {}", i, f.rust())).collect();
-        writeln!(out, "pub struct {} {{ {} }}", name, fs.join(", ")).unwrap();
+    // constructor path (generic instantiations: `Base::<args>`-free spelling via the base name)
+    let base = s.generic_of.clone().unwrap_or_else(|| name.clone());
+    if s.generic_of.is_none() {
+        writeln!(out, "{}", flat_attr(s.sized, s.portable, s.default, None)).unwrap();
+        if s.sized {
+            writeln!(out, "#[derive(Clone, Debug, PartialEq)]").unwrap();
+        }
+        if s.tuple {
+            let fs: Vec<String> = s.fields.iter().map(|f| format!("pub {}", f.rust())).collect();
+            writeln!(out, "pub struct {}({});", name, fs.join(", ")).unwrap();
+        } else {
+            let fs: Vec<String> = s.fields.iter().enumerate().map(|(i, f)| format!("pub f{}: {}", i, f.rust())).collect();
+            writeln!(out, "pub struct {} {{ {} }}", name, fs.join(", ")).unwrap();
+        }
     }
     // glue
     writeln!(out, "impl Shape for {} {{", name).unwrap();
@@ -775,9 +822,9 @@ fn emit_struct(out: &mut String, s: &StructDef) {
             })
             .collect();
         if s.tuple {
-            writeln!(out, "        {}Init({}).emplace_unchecked(bytes)", name, inits.join(", ")).unwrap();
+            writeln!(out, "        {}Init({}).emplace_unchecked(bytes)", base, inits.join(", ")).unwrap();
         } else {
-            writeln!(out, "        {}Init {{ {} }}.emplace_unchecked(bytes)", name, inits.join(", ")).unwrap();
+            writeln!(out, "        {}Init {{ {} }}.emplace_unchecked(bytes)", base, inits.join(", ")).unwrap();
         }
     }
     writeln!(out, "    }}").unwrap();
@@ -828,9 +875,9 @@ fn emit_struct(out: &mut String, s: &StructDef) {
             })
             .collect();
         if s.tuple {
-            writeln!(out, "        {}({})", name, inits.join(", ")).unwrap();
+            writeln!(out, "        {}({})", base, inits.join(", ")).unwrap();
         } else {
-            writeln!(out, "        {} {{ {} }}", name, inits.join(", ")).unwrap();
+            writeln!(out, "        {} {{ {} }}", base, inits.join(", ")).unwrap();
         }
         writeln!(out, "    }}").unwrap();
         writeln!(out, "}}").unwrap();
@@ -871,12 +918,18 @@ fn variant_name(i: usize) -> String {
 
 fn emit_enum(out: &mut String, e: &EnumDef) {
     let name = &e.name;
-    writeln!(out, "{}", flat_attr(e.sized, e.portable, e.default.is_some(), Some(e.tag))).unwrap();
-    if e.sized {
-        writeln!(out, "#[derive(Clone, Debug, PartialEq)]").unwrap();
+    let base = e.generic_of.clone().unwrap_or_else(|| name.clone());
+    if e.generic_of.is_none() {
+        writeln!(out, "{}", flat_attr(e.sized, e.portable, e.default.is_some(), Some(e.tag))).unwrap();
+        if e.sized {
+            writeln!(out, "#[derive(Clone, Debug, PartialEq)]").unwrap();
+        }
+        writeln!(out, "pub enum {} {{", name).unwrap();
     }
-    writeln!(out, "pub enum {} {{", name).unwrap();
     for (i, v) in e.variants.iter().enumerate() {
+        if e.generic_of.is_some() {
+            break;
+        }
         let attr = if e.default == Some(i) { "#[default] " } else { "" };
         match v.kind {
             VarKind::Unit => writeln!(out, "    {}{},", attr, variant_name(i)).unwrap(),
@@ -890,7 +943,9 @@ fn emit_enum(out: &mut String, e: &EnumDef) {
             }
         }
     }
-    writeln!(out, "}}").unwrap();
+    if e.generic_of.is_none() {
+        writeln!(out, "}}").unwrap();
+    }
 
     // pattern binding all fields of variant i as b0, b1, ...
     let pat = |prefix: &str, i: usize, v: &Variant| -> String {
@@ -915,7 +970,7 @@ fn emit_enum(out: &mut String, e: &EnumDef) {
         writeln!(out, "        let tag = self.tag() as usize;").unwrap();
         writeln!(out, "        match self.as_ref() {{").unwrap();
     }
-    let ref_prefix = if e.sized { name.clone() } else { format!("{}Ref", name) };
+    let ref_prefix = if e.sized { base.clone() } else { format!("{}Ref", base) };
     for (i, v) in e.variants.iter().enumerate() {
         writeln!(out, "            {} => {{", pat(&ref_prefix, i, v)).unwrap();
         if !e.sized {
@@ -962,9 +1017,9 @@ fn emit_enum(out: &mut String, e: &EnumDef) {
                 })
                 .collect();
             let ctor = match v.kind {
-                VarKind::Unit => format!("{}Init{}", name, variant_name(i)),
-                VarKind::Tuple => format!("{}Init{}({})", name, variant_name(i), inits.join(", ")),
-                VarKind::Named => format!("{}Init{} {{ {} }}", name, variant_name(i), inits.join(", ")),
+                VarKind::Unit => format!("{}Init{}", base, variant_name(i)),
+                VarKind::Tuple => format!("{}Init{}({})", base, variant_name(i), inits.join(", ")),
+                VarKind::Named => format!("{}Init{} {{ {} }}", base, variant_name(i), inits.join(", ")),
             };
             writeln!(out, "            {} => {}.emplace_unchecked(bytes),", i, ctor).unwrap();
         }
@@ -989,7 +1044,7 @@ fn emit_enum(out: &mut String, e: &EnumDef) {
     } else {
         writeln!(out, "        match self.as_mut() {{").unwrap();
     }
-    let mut_prefix = if e.sized { name.clone() } else { format!("{}Mut", name) };
+    let mut_prefix = if e.sized { base.clone() } else { format!("{}Mut", base) };
     for (i, v) in e.variants.iter().enumerate() {
         writeln!(out, "            {} => match first {{", pat(&mut_prefix, i, v)).unwrap();
         for k in 0..v.fields.len() {
@@ -1031,9 +1086,9 @@ fn emit_enum(out: &mut String, e: &EnumDef) {
                 })
                 .collect();
             let ctor = match v.kind {
-                VarKind::Unit => format!("{}::{}", name, variant_name(i)),
-                VarKind::Tuple => format!("{}::{}({})", name, variant_name(i), inits.join(", ")),
-                VarKind::Named => format!("{}::{} {{ {} }}", name, variant_name(i), inits.join(", ")),
+                VarKind::Unit => format!("{}::{}", base, variant_name(i)),
+                VarKind::Tuple => format!("{}::{}({})", base, variant_name(i), inits.join(", ")),
+                VarKind::Named => format!("{}::{} {{ {} }}", base, variant_name(i), inits.join(", ")),
             };
             writeln!(out, "            {} => {},", i, ctor).unwrap();
         }
@@ -1077,9 +1132,52 @@ pub fn is_message_shape(t: &Ty, generated_so_far: &mut usize) -> bool {
     }
 }
 
+/// Hand-written generic definitions (type, length-type and const parameters, where clauses);
+/// the corpus contains several instantiations of each (`anchors()`).
+pub const GENERIC_SRC: &str = r#"
+#[::flatty::flat(sized = false, default = true)]
+pub struct AGenU<T: ::flatty::Flat + Default, L: ::flatty::Flat + ::flatty::vec::Length + Default, const N: usize>
+where
+    [T; N]: Default,
+{
+    pub f0: [T; N],
+    pub f1: L,
+    pub f2: ::flatty::FlatVec<T, L>,
+}
+
+#[::flatty::flat(sized = false, default = true, tag_type = "u16")]
+pub enum AGenV<T: ::flatty::Flat + Default, L: ::flatty::Flat + ::flatty::vec::Length + Default, const N: usize>
+where
+    [T; N]: Default,
+{
+    V0(T, L),
+    #[default]
+    V1,
+    V2 { f0: [T; N], f1: AGenU<T, L, N> },
+}
+
+#[::flatty::flat(default = true)]
+#[derive(Clone, Debug, PartialEq)]
+pub struct AGenS<T: ::flatty::Flat + Default, const N: usize>
+where
+    [T; N]: Default,
+{
+    pub f0: u8,
+    pub f1: [T; N],
+    pub f2: T,
+}
+"#;
+
 /// Emit the Rust source for a corpus: definitions, glue and registry.
 pub fn emit(shapes: &[Ty], fn_name: &str) -> String {
     let mut out = String::new();
+    if shapes.iter().any(|t| match t {
+        Ty::Struct(s) => s.generic_of.is_some(),
+        Ty::Enum(e) => e.generic_of.is_some(),
+        _ => false,
+    }) {
+        out.push_str(GENERIC_SRC);
+    }
     for d in named_defs(shapes) {
         match &d {
             Ty::Struct(s) => emit_struct(&mut out, s),
